@@ -6,7 +6,7 @@ From Coq Require Import ZArith List Bool Lia.
 From Low Require Import Lib.MachInt Lib.Bits Lib.Lex Lib.Bytes Spec.Bmtree Spec.PathSpec Spec.ContractSpec Spec.PathWideSpec
   Model.BmtreePath Model.BmtreePathStr Model.BmtreePathWide Proofs.BmtreePathProofs
   Proofs.BmtreePathFamily Proofs.BmtreePathRawFields Proofs.BmtreeNewPathRaw Proofs.BmtreePathRebuild
-  Model.BmtreeIndex Proofs.BmtreePathWideExtra Proofs.BmtreePathText.
+  Model.BmtreeIndex Proofs.BmtreePathWideExtra Proofs.BmtreePathText Run.WideC10 Proofs.BmtreePathSession.
 Import ListNotations.
 Open Scope Z_scope.
 
@@ -357,6 +357,39 @@ Example C10_text_nonvacuous :
   bytes_cmp (PathStr (enc 6 [true; false; false])) (PathStr (enc 6 [true; false])) = Gt /\
   (enc 6 [true; false; false] ?= enc 6 [true; false]) = Gt.
 Proof. repeat apply conj; vm_compute; reflexivity. Qed.
+
+(** ** sessions: many PathStr calls in one process (operations bmtree.PathStr/seq, /bulk, /concurrent).
+    The model's PathStr is a function of the word alone, so whatever the order, repetition, mix of
+    heights or interleaving of the calls, every call returns the text of its own node; the operations
+    check that the implementation behaves as that function (memo tables, bounded caches, lock-free
+    "last result" words inside PathStr would not). *)
+Theorem C10_session : forall l : list (nat * node),
+  Forall (fun hq => (fst hq <= 32)%nat /\ (length (snd hq) <= fst hq)%nat) l ->
+  map (fun hq => PathStr (enc (fst hq) (snd hq))) l = map (fun hq => node_str (snd hq)) l.
+Proof. exact session_strs. Qed.
+Print Assumptions C10_session.
+
+(** the word of the l-bit prefix number x, as the bulk operation builds it *)
+Theorem C10_seg_word : forall h l x, 0 <= h <= 32 -> 1 <= l <= h -> 0 <= x < 2 ^ l ->
+  NewPath_full (x * 2 ^ (h - l)) l h = Some (enc (Z.to_nat h) (node_of (Z.to_nat l) x)).
+Proof. exact seg_word. Qed.
+Print Assumptions C10_seg_word.
+
+(** the bulk operation's model (Run/WideC10.v: words through NewPath, texts through PathStr, digest,
+    first K again) equals its specification (texts of the enumerated nodes), for any number of paths *)
+Theorem C10_bulk_model_spec : forall segs K stride, 0 <= K -> 1 <= stride -> Forall seg_dom segs ->
+  c10w_bulk segs K stride = Some (bulk_spec segs K stride).
+Proof. exact bulk_model_spec. Qed.
+Print Assumptions C10_bulk_model_spec.
+
+Example C10_session_nonvacuous :
+  seg_dom (8, 4, 10, 2) /\
+  c10w_bulk [(8, 4, 10, 2); (9, 4, 5, 1)] 2 1 = Some (bulk_spec [(8, 4, 10, 2); (9, 4, 5, 1)] 2 1) /\
+  snd (bulk_spec [(8, 4, 10, 2); (9, 4, 5, 1)] 2 1) = [[49; 48; 49; 48]; [49; 48; 49; 49]] /\
+  bulk_nodes [(8, 4, 0, 16)] 5 = [node_of 4 0; node_of 4 5; node_of 4 10; node_of 4 15] /\
+  PathBits (enc 8 [true; false; true; false]) = PathBits (enc 9 [false; true; false; true]) /\
+  PathStr (enc 9 [false; true; false; true]) = [48; 49; 48; 49].
+Proof. repeat apply conj; vm_compute; try reflexivity; try lia; congruence. Qed.
 
 (** non-vacuity of the widening: a call outside the documented range (height 40: the
     mask reaches the upper half), a panic, a non-canonical search word, a word with a
